@@ -29,6 +29,17 @@ def impl_oracle(case, r):
                 bad.append(("lost-or-duplicated", f"split {s}: example {i} is recorded {len(locs)} times"))
             elif v and locs[0][1] != v:
                 bad.append(("label-mismatch", f"split {s}: example {i} written under metadata {v} lies in shard {locs[0][0]} labelled {locs[0][1]}"))
+        # a recorded label has to come from a write into that shard: some write to this split (accepted or rejected) between the last example
+        # of the previous shard and the first example of the next one carried it -- a shard of unlabelled writes must not inherit a label
+        firsts = [min(ex) if isinstance(ex, list) and ex else None for (_n, ex, _m) in shards]
+        lasts = [max(ex) if isinstance(ex, list) and ex else None for (_n, ex, _m) in shards]
+        for j, (n, ex, m) in enumerate(shards):
+            if not m or firsts[j] is None:
+                continue
+            lo = max([x for x in lasts[:j] if x is not None], default=-1)
+            hi = min([x for x in firsts[j + 1:] if x is not None], default=10 ** 9)
+            if not any(lo < i < hi and v == m for (i, v, _ok) in vals[s]):
+                bad.append(("label-from-nowhere", f"split {s}: shard {j} (examples {ex}) is recorded with metadata {m}, which no write into it carried"))
         extra = set(where) - {i for i, _ in accepted}
         if extra:
             bad.append(("phantom-example", f"split {s}: recorded examples {sorted(extra)} were never accepted"))
